@@ -38,7 +38,7 @@ func (c04) Components() map[string]string {
 }
 func (c04) Budget(tier string) int {
 	if tier == "thorough" {
-		return 60000
+		return 150000
 	}
 	return 1200
 }
@@ -220,6 +220,7 @@ func (p c04) Run(sc *Scenario) *Result {
 	}
 	S := ref.ctx.Exec
 	nf := ref.ctx.FaultCalls
+	res.Mix(CanonDict(ref.g), outcome(ref.err), fmt.Sprint(S, nf))
 	if ref.err != nil {
 		res.Count("modules_failing_by_themselves", 1)
 	}
